@@ -163,6 +163,19 @@ func (c *lazyClient) VerifyLightBlockAtHeight(ctx context.Context, height int64,
 	if err := c.initialize(ctx); err != nil {
 		return nil, err
 	}
+	// Refuse heights below the first trusted header. The light client would verify them backwards:
+	// it fetches the light block for the requested height, then fetches the headers from the first
+	// trusted one down to the requested height again and checks their hash chain, but it never
+	// compares the block it fetched first with that chain and nevertheless stores and returns it.
+	// A light block provider that answers the first request with a forged block and the later
+	// ones honestly gets the forged block accepted.
+	firstTrusted, err := c.lightClient.FirstTrustedHeight()
+	if err != nil {
+		return nil, err
+	}
+	if height > 0 && firstTrusted > 0 && height < firstTrusted {
+		return nil, fmt.Errorf("height %d is below the first trusted height %d", height, firstTrusted)
+	}
 	return c.lightClient.VerifyLightBlockAtHeight(ctx, height, now)
 }
 
